@@ -131,7 +131,7 @@ func exploreItem(scs []Scenario, cfg Config, it item) result {
 		}
 		seen[key] = true
 		if !confirm(sc, cfg, r.Choices, key) {
-			res.Nondet = fmt.Sprintf("scenario %s schedule %v (%s) does not replay deterministically", sc.Name, r.Choices, key)
+			res.Nondet = fmt.Sprintf("scenario %s schedule %v (%s) does not replay deterministically; first observation: %s", sc.Name, r.Choices, key, msg)
 			return
 		}
 		res.Viols = append(res.Viols, viol{key, msg, r.Choices, r.Log})
@@ -190,6 +190,39 @@ func Serve(scs []Scenario, cfg Config) {
 // Run is the master: explores every scenario within the bound and accounts the
 // results on c. It reports violations through c.Violate.
 func Run(c *vk.Ctx, scs []Scenario, cfg Config) {
+	if name := os.Getenv("VERIF_REPLAY_SCEN"); name != "" {
+		// debugging aid: VERIF_REPLAY_SCEN=<scenario> VERIF_REPLAY_CHOICES="0 0 3 ..." replays one schedule 3 times
+		var choices []int
+		for _, f := range strings.Fields(os.Getenv("VERIF_REPLAY_CHOICES")) {
+			var n int
+			fmt.Sscan(f, &n)
+			choices = append(choices, n)
+		}
+		for _, sc := range scs {
+			if sc.Name != name {
+				continue
+			}
+			for i := 0; i < 3; i++ {
+				r := vsched.Run(choices, cfg.MaxPoints, sc.Body)
+				k, m := "", ""
+				if sc.Oracle != nil {
+					k, m = sc.Oracle(r)
+				}
+				fmt.Printf("INFO replay %d: points=%d deadlock=%v diverged=%q races=%v oracle=%s %s\n", i, len(r.Points), r.Deadlock, r.Diverged, r.Races, k, m)
+				for _, l := range r.Log {
+					fmt.Printf("INFO    %s\n", l)
+				}
+				var ks []string
+				for _, p := range r.Points {
+					ks = append(ks, fmt.Sprintf("g%d:%s", p.ChosenG, p.Kind))
+				}
+				fmt.Printf("INFO    trace %s\n", strings.Join(ks, " "))
+			}
+		}
+		c.Case("replay")
+		c.Case("replay2")
+		return
+	}
 	if cfg.Workers == 0 {
 		cfg.Workers = 16
 	}
